@@ -13,13 +13,145 @@
   Environment assumption carried by `Inv`: the allocation callbacks never hand out
   2^63 bytes or more (`allocLimit < 2^63`, true of every malloc: PTRDIFF_MAX).
 -/
-import Mhd.Proofs.WSErr2
+import Mhd.Proofs.WSRoundCtrl
 
 namespace Mhd.C19
 open Mhd.WS
 
 /-- a server-side stream as `MHD_websocket_stream_init (&ws, 0, 0)` leaves it (allocation limit 1000) -/
 def ws0 : WS := { flags := 0, maxPayload := 0, allocLimit := 1000, rng := [] }
+
+/-! ## (i) split independence -/
+
+/-- `session ws chunks` is what an application sees (status ≠ 0, returned allocation, length —
+    in order) when it receives `chunks` one after the other and runs the documented loop
+    `while (off < n) { st = MHD_websocket_decode (rest…); if (st < 0) break; off += read_len; }`
+    on each, stopping for good at the first negative status.
+
+    For every stream state between two calls that is still valid (any role, flags, size limit,
+    allocation limit, any point inside a frame, a fragmented message, after a close frame …)
+    and every list of chunks — any number, any sizes, empty ones included — the application
+    sees exactly what it sees when it is handed the concatenation in one piece. -/
+theorem split_independent (ws : WS) (hi : Inv ws) (hq : sil ws = 0) (hv : ws.validity ≠ 0)
+    (chunks : List (List UInt8)) : session ws chunks = session ws [chunks.flatten] :=
+  session_split_independent hi hq hv chunks
+
+/-- … in particular from a freshly initialised stream. -/
+theorem split_independent_init (flags maxPayload allocLimit : Nat) (ws : WS) (ha : allocLimit < 2 ^ 63)
+    (h : WS.init flags maxPayload allocLimit = some ws) (chunks : List (List UInt8)) :
+    session ws chunks = session ws [chunks.flatten] :=
+  let ⟨hi, hq, hv⟩ := init_inv flags maxPayload allocLimit ws ha h
+  session_split_independent hi hq (by rw [hv]; decide) chunks
+
+/-- non-vacuity, and the input of F7: a masked close frame, code 1000, reason "bye!!", fed byte
+    by byte, is the close frame it is in one piece -/
+example : session ws0 ([0x88, 0x87, 1, 2, 3, 4, 0x02, 0xea, 0x61, 0x7d, 0x64, 0x23, 0x22].map fun b => [b]) =
+    [(8, some [0x03, 0xe8, 0x62, 0x79, 0x65, 0x21, 0x21, 0], 7)] := by decide
+
+/-! ## (ii) round trip -/
+
+/-- **decode (encode m) = m**, text and binary messages sent as one frame
+    (`MHD_websocket_encode_text/binary` with `MHD_WEBSOCKET_FRAGMENTATION_NONE`).
+    `wsS` is the sender's stream, `wsR` the receiver's, in the opposite role, between two
+    frames of a live session with no message under assembly.  For every payload (any length
+    ≥ 0 in any of the three length encodings, valid UTF-8 if text), every mask key the
+    sender's rng hands out, every way of cutting the produced frame into chunks: the receiving
+    application gets exactly one frame — status = opcode, the payload NUL-terminated
+    (`NULL` for an empty one), its length.  Size hypotheses: the payload fits the receiver's
+    configured maximum and both allocations succeed. -/
+theorem roundtrip_data_partial (wsR wsS : WS) (h : Inv wsR) (hs : wsR.step = 0) (hv : wsR.validity = 1)
+    (hdt : wsR.dataType = 0) (hrole : wsS.isClient = !wsR.isClient) (op : Nat) (hop : op = 1 ∨ op = 2)
+    (payload : List UInt8) (hn : payload.length < 2 ^ 63)
+    (hmax : wsR.maxPayload = 0 ∨ payload.length ≤ wsR.maxPayload) (halR : payload.length + 1 ≤ wsR.allocLimit)
+    (halS : overheadSize wsS payload.length + payload.length + 1 ≤ wsS.allocLimit)
+    (hutf : op = 1 → checkUtf8 payload 0 0 = .ok 0) :
+    ∃ wire, (encodeData wsS payload 0 op).st = 0 ∧ (encodeData wsS payload 0 op).frame = some (wire ++ [0]) ∧
+      ∀ chunks : List (List UInt8), chunks.flatten = wire →
+        session wsR chunks = [(Int.ofNat op, plOf payload, payload.length)] := by
+  obtain ⟨m1, m2, m3, m4, hst, _, hfr⟩ := encodeData_frame wsS payload op halS
+  refine ⟨_, hst, hfr, ?_⟩
+  intro chunks hc
+  have hq : sil wsR = 0 := by unfold sil; rw [hs]; simp
+  have hvv : wsR.validity ≠ 0 := by omega
+  obtain ⟨ws', hrun⟩ := roundtrip_data_run' wsR h hs hv hdt op hop payload hn hmax halR hutf m1 m2 m3 m4
+    wsS.isClient hrole _ rfl
+  rw [split_independent wsR h hq hvv chunks, hc]
+  exact session_of_run h hq hvv _ hrun
+/-- **decode (encode m) = m**, ping and pong frames: any payload of ≤ 125 bytes, any key, any
+    chunking, any live receiver state between two frames (also inside a fragmented message or
+    after a close frame). -/
+theorem roundtrip_pingpong_partial (wsR wsS : WS) (h : Inv wsR) (hs : wsR.step = 0) (hv : wsR.validity ≠ 0)
+    (hrole : wsS.isClient = !wsR.isClient) (op : Nat) (hop : op = 9 ∨ op = 10)
+    (payload : List UInt8) (hn : payload.length ≤ 125)
+    (hmax : wsR.maxPayload = 0 ∨ payload.length ≤ wsR.maxPayload) (halR : payload.length + 1 ≤ wsR.allocLimit)
+    (halS : overheadSize wsS payload.length + payload.length + 1 ≤ wsS.allocLimit) :
+    ∃ wire, (encodePingPong wsS payload op).st = 0 ∧ (encodePingPong wsS payload op).frame = some (wire ++ [0]) ∧
+      ∀ chunks : List (List UInt8), chunks.flatten = wire →
+        session wsR chunks = [(Int.ofNat op, plOf payload, payload.length)] := by
+  have henc : encodePingPong wsS payload op =
+      encodeFrame wsS (UInt8.ofNat (0x80 + op)) payload.length (fun mask => copyPayload payload mask 0) := by
+    unfold encodePingPong; rw [if_neg (by omega)]
+  obtain ⟨m1, m2, m3, m4, hst, _, hfr⟩ := encodeFrame_ok wsS (UInt8.ofNat (0x80 + op)) payload.length
+    (fun mask => copyPayload payload mask 0) (fun m => copyPayload_length _ _ _) halS
+  rw [henc]
+  refine ⟨_, hst, hfr, ?_⟩
+  intro chunks hc
+  have hq : sil wsR = 0 := by unfold sil; rw [hs]; simp
+  obtain ⟨ws', hrun⟩ := roundtrip_ctrl_run wsR h hs hv op (by omega) payload hn (by omega) hmax halR
+    (by omega) m1 m2 m3 m4 wsS.isClient hrole _ rfl
+  rw [split_independent wsR h hq hv chunks, hc]
+  exact session_of_run h hq hv _ hrun
+
+/-- **decode (encode m) = m**, close frames (`MHD_websocket_encode_close` with a status code
+    ≥ 1000 and a reason of ≤ 123 bytes of valid UTF-8): the receiver gets a CLOSE_FRAME whose
+    payload is the two code bytes (network order) followed by the reason. -/
+theorem roundtrip_close_partial (wsR wsS : WS) (h : Inv wsR) (hs : wsR.step = 0) (hv : wsR.validity ≠ 0)
+    (hrole : wsS.isClient = !wsR.isClient) (code : Nat) (hcode : 1000 ≤ code) (reason : List UInt8)
+    (hn : reason.length ≤ 123) (hutf : checkUtf8 reason 0 0 = .ok 0)
+    (hmax : wsR.maxPayload = 0 ∨ 2 + reason.length ≤ wsR.maxPayload) (halR : 2 + reason.length + 1 ≤ wsR.allocLimit)
+    (halS : overheadSize wsS (2 + reason.length) + (2 + reason.length) + 1 ≤ wsS.allocLimit) :
+    ∃ wire, (encodeClose wsS code reason).st = 0 ∧ (encodeClose wsS code reason).frame = some (wire ++ [0]) ∧
+      ∀ chunks : List (List UInt8), chunks.flatten = wire →
+        session wsR chunks = [(8, some (beBytes 2 code ++ reason ++ [0]), 2 + reason.length)] := by
+  have hpl : (beBytes 2 code ++ reason).length = 2 + reason.length := by simp [beBytes_length]
+  have henc : encodeClose wsS code reason =
+      encodeFrame wsS 0x88 (2 + reason.length) (fun mask => copyPayload (beBytes 2 code ++ reason) mask 0) := by
+    unfold encodeClose
+    rw [if_neg (by omega), if_neg (by omega), if_neg (by rw [hutf]; simp)]
+    simp only [show code ≠ 0 by omega, ne_eq, not_false_eq_true, if_true]
+    congr 1
+    funext mask
+    exact copyPayload_code_reason code reason mask
+  obtain ⟨m1, m2, m3, m4, hst, _, hfr⟩ := encodeFrame_ok wsS 0x88 (2 + reason.length)
+    (fun mask => copyPayload (beBytes 2 code ++ reason) mask 0) (fun m => by rw [copyPayload_length, hpl]) halS
+  rw [henc]
+  refine ⟨_, hst, hfr, ?_⟩
+  intro chunks hc
+  have hq : sil wsR = 0 := by unfold sil; rw [hs]; simp
+  obtain ⟨ws', hrun⟩ := roundtrip_ctrl_run wsR h hs hv 8 (by omega) (beBytes 2 code ++ reason) (by rw [hpl]; omega)
+    (by intro _; rw [hpl]; omega) (by rw [hpl]; exact hmax) (by rw [hpl]; exact halR)
+    (by intro _ _; rw [List.drop_append_of_le_length (by simp [beBytes_length])]
+        have : (beBytes 2 code).drop 2 = [] := List.drop_of_length_le (by simp [beBytes_length])
+        rw [this, List.nil_append]; exact hutf)
+    m1 m2 m3 m4 wsS.isClient hrole _ rfl
+  rw [split_independent wsR h hq hv chunks, hc]
+  rw [hpl] at hrun
+  have e136 : UInt8.ofNat (0x80 + 8) = 0x88 := rfl
+  rw [e136] at hrun
+  rw [session_of_run h hq hv _ hrun]
+  simp [plOf, beBytes]
+/- `_partial`: the statement of C19 (ii) also covers messages sent as FIRST / FOLLOWING / LAST
+   fragments (and their delivery as fragments with `MHD_WEBSOCKET_FLAG_WANT_FRAGMENTS`).  That
+   part is not proved here (no obstacle is known: `header_run` covers the headers of
+   continuation frames; what is missing is the accumulation invariant over a fragment
+   sequence).  It is covered by the correspondence run (reference encoder + reference framer
+   on fragmented messages with interleaved control frames, real two-phase round trips). -/
+
+/-- non-vacuity: a client sends "hé" masked with the key 01 02 03 04 to a server -/
+example : (encodeData { ws0 with flags := 1, rng := [1, 2, 3, 4] } [0x68, 0xC3, 0xA9] 0 1).frame =
+      some ([0x81, 0x83, 1, 2, 3, 4, 0x69, 0xC1, 0xAA] ++ [0]) ∧
+    session ws0 [[0x81, 0x83, 1], [2, 3, 4, 0x69, 0xC1], [0xAA]] = [(1, some [0x68, 0xC3, 0xA9, 0], 3)] := by
+  constructor <;> decide
 
 /-! ## (iv) no access outside the buffers -/
 
@@ -177,5 +309,26 @@ example : (feed false ws0 [0x82, 0xFE, 0x00]).2.2 = .consumed ∧ (feed false ws
 
 example : Rejected (decode false ws0 [0xC1]) (-1) :=
   reserved_bits _ _ _ (by decide) (by decide) (by decide)
+
+/-! ## the defects the theorems above excluded (model of the code before the fixes, `lg = true`) -/
+
+/-- F7 (mhd_websocket.c:1225–1247 before the fix): the same close frame decodes in one call but
+    faults (the UTF-8 check runs past the payload allocation: `bytes_to_check = bytes_to_take -
+    utf8_start` wraps around) when its reason arrives in pieces — split dependence and an
+    out-of-bounds read. -/
+theorem F7_witness :
+    (feed true ws0 [0x88, 0x87, 1, 2, 3, 4, 0x02, 0xea, 0x61, 0x7d, 0x64, 0x23, 0x22]).2.2 = .consumed ∧
+    sessionG true ws0 [[0x88, 0x87, 1, 2, 3, 4, 0x02, 0xea, 0x61, 0x7d, 0x64, 0x23, 0x22]] =
+      [(8, some [0x03, 0xe8, 0x62, 0x79, 0x65, 0x21, 0x21, 0], 7)] ∧
+    (feed true (feed true ws0 [0x88, 0x87, 1, 2, 3, 4, 0x02, 0xea, 0x61]).1 [0x7d]).2.2 =
+      .fault "UTF-8 check reads outside the payload allocation" := by decide
+
+/-- F7c (before the fix): a text message that ends inside a UTF-8 sequence (`C3`) is handed to
+    the application as a valid text frame, and the stale validator state makes the next,
+    valid message (`"A"`) fail. -/
+theorem F7c_witness :
+    sessionG true ws0 [[0x81, 0x81, 0, 0, 0, 0, 0xC3], [0x81, 0x81, 0, 0, 0, 0, 0x41]] =
+      [(1, some [0xC3, 0], 1), (-6, none, 0)] ∧
+    session ws0 [[0x81, 0x81, 0, 0, 0, 0, 0xC3], [0x81, 0x81, 0, 0, 0, 0, 0x41]] = [(-6, none, 0)] := by decide
 
 end Mhd.C19
